@@ -5,8 +5,8 @@ namespace Driver.Suites.Access
 open Lean Driver SaModel SaModel.Access
 
 /-- a request of the harness: one model operation, or a PROVIDED `Iterator` method, which std defines through `next`
-(`nth(n)` = `n + 1` calls of `next`, the last one's result; `by_ref().count()` = calls of `next` until `None`, the
-number of items) and which is therefore replayed on the model as that many `iterNext` steps — the iterator is fused, so
+(`nth(n)` = `n + 1` calls of `next`, the last one's result; `count()` = calls of `next` until `None`, the number of
+items; the harness calls `count` / `last` BY VALUE and refills the slot with an exhausted iterator) and which is therefore replayed on the model as that many `iterNext` steps — the iterator is fused, so
 calls after the end change nothing -/
 inductive Req where
   | one (op : Op)
